@@ -15,13 +15,15 @@ import (
 // address - the edges real channels give.
 
 type chanState struct {
-	key    unsafe.Pointer
-	q      []chanItem
-	capN   int
-	closed bool
-	taken  uint64 // tickets of unbuffered offers that a receiver took
-	sema   byte
-	rsema  byte
+	key       unsafe.Pointer
+	q         []chanItem
+	capN      int
+	closed    bool
+	taken     uint64 // tickets of unbuffered offers that a receiver took
+	rwait     int    // plain receivers parked on this channel
+	selTicket uint64 // ticket of the offer a select just made on this (unbuffered) channel
+	sema      byte
+	rsema     byte
 }
 
 type chanItem struct {
@@ -147,7 +149,20 @@ func Recv2[C RecvChan[T], T any](c C) (T, bool) {
 			}
 			return v.(T), true
 		}
+		recvPark(w, st, +1)
 		w.chanWait("channel receive")
+		recvPark(w, st, -1)
+	}
+}
+
+// recvPark counts the plain receivers parked on a channel (a select with a send case on an
+// unbuffered channel is ready when one is) and lets waiting selects look again.
+//
+//go:norace
+func recvPark(w *World, st *chanState, d int) {
+	st.rwait += d
+	if d > 0 && len(w.selWaiters) > 0 {
+		w.chanWake()
 	}
 }
 
